@@ -36,6 +36,11 @@ CHECKS = {
    "DESIGN.md section 4 / C08",
    "exhaustive only for the enumerated sub-space; the rest is seeded exploration. Trusted: crate decoder for reading sequence numbers and slices.",
    "runtime monitoring: invariant at hook + release-implies-delivered history check; enumerated arrival orders"),
+ "C06": ("exploration",
+   "Structure-aware hostile datagram injection (replay, field mutation through the crate's own encoder, built-from-scratch boundary packets, contradicting follow-up slices, truncations, bit flips, raw weird encodings, random bytes) into both roles of a live simulated session in several states, with panic capture, per-call watchdog, status / accounting / heap monitors after every call, periodic full API ticks, and a healthy second connection checked by the C01 oracle. Overflow-checked and shipped builds; thorough adds an AddressSanitizer build.",
+   "DESIGN.md section 4 / C06",
+   "Inputs are sampled, not enumerated; heap bound has 1 MB slack; ASan only in the thorough tier.",
+   "runtime monitoring: hostile-input injection with catch_unwind / watchdog / accounting hooks / counting allocator (+ASan)"),
 }
 
 NOT_YET = {}
